@@ -182,3 +182,21 @@ def simval_zero(M):
     """no common token: the quotient is 0.0 exactly"""
     n, m = z3.Ints('n!sz m!sz')
     return z3.ForAll([n, m], simval[M](0, n, m) == 0, patterns=[simval[M](0, n, m)])
+
+dedup = z3.Function('dedup_attrs', sort_of(_LV), ValSort, sort_of(_LV))                 # remove_redundant_attrs
+proj_attrs = z3.Function('proj_attrs', sort_of(_LV), ValSort, ValSort, sort_of(_LV))    # get_attrs_to_project
+proj_attrs0 = z3.Function('proj_attrs_none', ValSort, ValSort, sort_of(_LV))            # ... with out_attrs None
+
+# get_output_header_from_tables as a function of its arguments, one symbol per None/list combination
+_oh = {}
+
+
+def out_header(lkey, rkey, louts, routs, lp, rp):
+    """louts / routs: z3 list terms or None"""
+    key = (louts is None, routs is None)
+    if key not in _oh:
+        sorts = [ValSort, ValSort] + ([] if louts is None else [sort_of(_LV)]) + \
+                ([] if routs is None else [sort_of(_LV)]) + [ValSort, ValSort, sort_of(_LV)]
+        _oh[key] = z3.Function('out_header_%s_%s' % ('N' if louts is None else 'L', 'N' if routs is None else 'L'), *sorts)
+    args = [lkey, rkey] + ([] if louts is None else [louts]) + ([] if routs is None else [routs]) + [lp, rp]
+    return _oh[key](*args)
